@@ -336,7 +336,7 @@ def run(w) -> None:
     if batch:
         run_batch(w, batch, True)
     # wide signatures: sampled shapes
-    n_wide = (20000 if thorough else 640) // w.nshards
+    n_wide = (60000 if thorough else 3000) // w.nshards
     batch = []
     for j in range(n_wide):
         batch.append(("w{}_{}".format(w.shard, j), wide_signature(rng), rng.choice(("function", "function", "method", "async", "class"))))
